@@ -258,8 +258,13 @@ impl CanonicalRequest {
                         pq.push_str(&qs);
                     }
 
-                    parts.uri =
-                        Uri::builder().path_and_query(pq).build().expect("failed to rebuild URI with new query string");
+                    // The rebuilt URI can exceed what the http crate accepts (just under 64 KiB) when the body is large.
+                    parts.uri = Uri::builder().path_and_query(pq).build().map_err(|e| {
+                        SignatureError::MalformedQueryString(format!(
+                            "Unable to fold application/x-www-form-urlencoded body into the query string: {}",
+                            e
+                        ))
+                    })?;
                     body = Bytes::from("");
                 }
             }
